@@ -120,6 +120,7 @@ func c07scenarios() []c07scenario {
 			}
 			return c07makePartial(e, ".q4")
 		}, op: putQ4, heights: hs, usesQ4: true},
+		{name: "newstore-fresh-directory", opIsNewStore: true, heights: func(e *c07env) []uint64 { return []uint64{e.hE} }},
 		{name: "newstore-reopen", prep: func(ctx context.Context, s *store.Store, e *c07env) error {
 			if err := putQ4(ctx, s, e); err != nil {
 				return err
@@ -372,7 +373,9 @@ func c07collect(ctx context.Context, run *vkit.Run, sc c07scenario, e *c07env, m
 	tr.mu.Unlock()
 	var opErr error
 	if sc.opIsNewStore {
-		_ = s.Stop(ctx)
+		if s != nil {
+			_ = s.Stop(ctx)
+		}
 		_, opErr = store.NewStore(params, dir)
 	} else {
 		// a parked writer whose partner never starts (create fails with "exists") must not hang the run
